@@ -997,7 +997,7 @@ pub fn check_item(cx: &Ctx, rep: &mut Report, it: &Item, enc: &[u8], rng: &mut R
 }
 
 /// Typed generator: items shaped so that the composite targets match often.
-fn shaped_item(rng: &mut Rng) -> Item {
+pub fn shaped_item(rng: &mut Rng) -> Item {
     use vcore::gen::{gen_u64, widen};
     let uint = |rng: &mut Rng| Item::uint(if rng.bool() { rng.below(300) } else { gen_u64(rng) });
     let text = |rng: &mut Rng| Item::text(&vcore::gen::gen_string(rng, false));
